@@ -101,6 +101,7 @@ type influxqlGroup struct {
 func (g *influxqlGroup) BeginBatch(begin edge.BeginBatchMessage) (edge.Message, error) {
 	g.begin = begin
 	g.batchSize = 0
+	g.bc.name = begin.Name()
 	g.bc.time = begin.Time()
 	g.rc = nil
 	return nil, nil
